@@ -270,7 +270,10 @@ def run(tier, seed):
     def run_module(mi):
         b, names = mods[mi]
         ks = by_mod.get(mi, [])
-        cl = [["run", [plan[k][1], plan[k][3], L.SHAPE[cases[plan[k][0]]["shape"]].mut]] for k in ks]
+        # a typed receiver holding None may reach C code without a None check: flush before such calls so that a
+        # crash is attributed to the right call
+        cl = [["run", [plan[k][1], plan[k][3], L.SHAPE[cases[plan[k][0]]["shape"]].mut],
+               plan[k][5] not in ("u", "uk") and cases[plan[k][0]]["args"][0][0] == "None"] for k in ks]
         obs = calls.run_calls(b, cl, prelude=L.PRELUDE, timeout=1800, tag="C") if cl else []
         res = []
         for o in obs:
